@@ -85,6 +85,23 @@ typedef struct
 	int ftype[4], fval[4], nfrom;
 } call_t;
 
+/* fault overlay (as in vh_c07.c): fault_k >= 0: the fault_k-th allocation request of the next armed call fails */
+static long fault_k = -2;
+static int fault_hit;
+#define ARMED(call) \
+	do \
+	{ \
+		fault_hit = 0; \
+		if (fault_k >= 0) \
+			vh_alloc_arm(fault_k); \
+		call; \
+		if (fault_k >= 0) \
+		{ \
+			fault_hit = vh_nalloc > fault_k; \
+			vh_alloc_disarm(); \
+			fault_k = -2; \
+		} \
+	} while (0)
 static void emit(call_t *c)
 {
 	ev_begin("op");
@@ -117,6 +134,8 @@ static void emit(call_t *c)
 	}
 	ev_close_arr();
 	ev_int("ret", c->ret);
+	ev_int("fault", fault_hit);
+	fault_hit = 0;
 	qsort(dead, (size_t)ndead, sizeof dead[0], cmp_ll);
 	qsort(fired, (size_t)nfired, sizeof fired[0], cmp_ll);
 	ev_ints("dead", dead, (size_t)ndead);
@@ -244,8 +263,8 @@ static void op_oadd(int a, int b, int k, int isnew)
 	c->a = a;
 	c->b = b;
 	c->k = k;
-	c->ret = isnew ? json_object_object_add_ex(node[a], keystr(k), b ? node[b] : NULL, JSON_C_OBJECT_ADD_KEY_IS_NEW)
-	               : json_object_object_add(node[a], keystr(k), b ? node[b] : NULL);
+	ARMED(c->ret = isnew ? json_object_object_add_ex(node[a], keystr(k), b ? node[b] : NULL, JSON_C_OBJECT_ADD_KEY_IS_NEW)
+	                     : json_object_object_add(node[a], keystr(k), b ? node[b] : NULL));
 	after_give(b, c->ret);
 	emit(c);
 }
@@ -266,11 +285,11 @@ static void op_arr(const char *op, int a, int b, int i, int cnt)
 	c->cnt = cnt;
 	json_object *v = b ? node[b] : NULL;
 	if (!strcmp(op, "aadd"))
-		c->ret = json_object_array_add(node[a], v);
+		ARMED(c->ret = json_object_array_add(node[a], v));
 	else if (!strcmp(op, "aput"))
-		c->ret = json_object_array_put_idx(node[a], (size_t)i, v);
+		ARMED(c->ret = json_object_array_put_idx(node[a], (size_t)i, v));
 	else if (!strcmp(op, "ains"))
-		c->ret = json_object_array_insert_idx(node[a], (size_t)i, v);
+		ARMED(c->ret = json_object_array_insert_idx(node[a], (size_t)i, v));
 	else
 		c->ret = json_object_array_del_idx(node[a], (size_t)i, (size_t)cnt);
 	if (strcmp(op, "adel"))
@@ -342,7 +361,7 @@ static void op_copy(int a, int deflt)
 	c->a = a;
 	c->deflt = deflt;
 	json_object *dst = NULL;
-	c->ret = json_object_deep_copy(node[a], &dst, deflt ? NULL : copy2);
+	ARMED(c->ret = json_object_deep_copy(node[a], &dst, deflt ? NULL : copy2));
 	if (c->ret == 0 && dst)
 	{
 		int from = 1;
@@ -374,7 +393,7 @@ static void op_ptrset(int a, int b, const int *ptype, const int *pval, int np, i
 		strcat(path, seg);
 	}
 	json_object *root = node[a];
-	c->ret = usef ? json_pointer_setf(&root, b ? node[b] : NULL, "%s", path) : json_pointer_set(&root, path, b ? node[b] : NULL);
+	ARMED(c->ret = usef ? json_pointer_setf(&root, b ? node[b] : NULL, "%s", path) : json_pointer_set(&root, path, b ? node[b] : NULL));
 	if (root != node[a])
 		c->ret = -9; /* a non-empty path never replaces the root */
 	after_give(b, c->ret);
@@ -754,6 +773,11 @@ static int drive(int start, int nexec, int nops)
 				continue;
 			}
 			int a;
+			/* now and then one of the next giving / copying call's first allocation requests fails */
+			if (r >= 42 && vh_below(14) == 0)
+				fault_k = (long)vh_below(r >= 90 && r < 93 ? 6 : 3);
+			else
+				fault_k = -2;
 			if (r < 28)
 			{
 				if ((a = pick_held(0)) && held[a] < 3)
